@@ -104,10 +104,12 @@ fn main() {
         // vcheck replay-fuzz <target> <artifact>: re-run one fuzz input in-process
         "replay-fuzz" => {
             let data = std::fs::read(&args[3]).unwrap_or_default();
-            let prop = match args[2].as_str() {
-                "fz_decode" => "C04",
-                "fz_chunk" => "C09",
-                _ => "C05",
+            // target is fz_decode, fz_chunk, fz_conn (property from VERIF_FZ_CHECK) or fz_conn:<Cxx>
+            let prop: String = match args[2].as_str() {
+                "fz_decode" => "C04".into(),
+                "fz_chunk" => "C09".into(),
+                t if t.starts_with("fz_conn:") => t[8..].to_string(),
+                _ => vharness::fuzz::selected_check().to_string(),
             };
             match vharness::fuzz::run_target(&args[2], &data) {
                 Some(Ok(())) => {
@@ -115,6 +117,10 @@ fn main() {
                     std::process::exit(0);
                 }
                 Some(Err(f)) => {
+                    if let Some(k) = known.iter().find(|k| k.open && k.rule == f.rule && k.sig == f.sig) {
+                        println!("KNOWN-FINDING: property={} rule={} sig={} :: {}", prop, f.rule, f.sig, k.text);
+                        std::process::exit(0);
+                    }
                     println!("rule={} sig={}\n{}", f.rule, f.sig, f.detail);
                     println!("VIOLATION property={} replay={}", prop, args[3]);
                     std::process::exit(1);
@@ -203,6 +209,9 @@ fn main() {
                         }
                     }
                 }
+            }
+            if let Ok(n) = std::env::var("VERIF_FUZZ_VIOLATIONS") {
+                rep.fuzz_violations = n.parse().unwrap_or(0);
             }
             let d23 = vharness::scn::EXCLUDED_D23.load(std::sync::atomic::Ordering::Relaxed);
             if d23 > 0 {
